@@ -356,6 +356,14 @@ def check(pid, tier, repo, seed, scale, clauses, jobs, keep=False):
     rundir = os.path.join(BUILD, 'run', '%s-%s-%d' % (pid, tier, os.getpid()))
     shutil.rmtree(rundir, ignore_errors=True)
     os.makedirs(rundir)
+    # ---- regression tier: saved cases (shrunk reproducers of earlier findings and of seeded changes) replayed first, in milliseconds
+    regress_fail = []
+    regress_n = 0
+    for case in sorted(glob.glob(os.path.join(VERIF, 'regress', pid, '*.case'))):
+        regress_n += 1
+        rc0, _ = replay_once(binary, case, rundir)
+        if rc0 == 1:
+            regress_fail.append(case)
     nshards = min(jobs, 16 if tier == 'thorough' else 8)
     scale = scale * TIER_SCALE.get(pid, (1, 1))[1 if tier == 'thorough' else 0]
     env = san_env(rundir)
@@ -371,6 +379,8 @@ def check(pid, tier, repo, seed, scale, clauses, jobs, keep=False):
     merged = {}
     hashes = {}
     failures = []   # (clause, kind, case file, message, shard)
+    for case in regress_fail:
+        failures.append(('regress:' + os.path.basename(case)[:-5], 'fail', case, 'saved regression case fails again: ' + case, 0))
     for k in range(nshards):
         sp = os.path.join(rundir, 'stats%d.json' % k)
         if not os.path.exists(sp):
@@ -470,7 +480,7 @@ def check(pid, tier, repo, seed, scale, clauses, jobs, keep=False):
             'samples': samples[:24] if samples else [{'note': 'no case completed'}],
             'discarded': discards,
             'clauses': {cl: {k2: m[k2] for k2 in ('cases', 'discards', 'nontrivial', 'classes', 'worst_ratio', 'excluded_known', 'wall_s')} for cl, m in sorted(merged.items())},
-            'shards': nshards, 'scale': scale, 'fuzz': fuzz_stats,
+            'shards': nshards, 'scale': scale, 'fuzz': fuzz_stats, 'regression_cases_replayed': regress_n,
             'unreproduced_failures': [{'clause': c, 'kind': kd, 'message': ms[:500]} for c, kd, ms in unreproduced],
             'known_findings': [{'id': f.get('id'), 'status': f.get('status'), 'what': f.get('what')} for f in kf],
             'violations_found': [{'clause': c, 'kind': kd, 'replay': dst, 'message': ms[:800]} for c, kd, dst, ms, _ in violations],
